@@ -783,8 +783,8 @@ where
                     level_suppvar_map[min_level as usize] as usize
                 };
                 match child_min_suppvar.checked_sub(vid) {
-                    Some(v) => v,
-                    None => return err("variable ID out of range"),
+                    Some(v) if v < suppvar_level_map.len() => v,
+                    _ => return err("variable ID out of range"),
                 }
             }
         };
